@@ -91,6 +91,8 @@ pub fn catalogue(callbacks_only: bool) -> Vec<History> {
             ops.push(Op::Add { slot: 0, text: Text::Lit("0123456789abcdefghij".into()) });
             ops.push(Op::FromText { slot: 3, via: Via::Parse, text: "a text of twenty-five bytes".into() });
             ops.push(Op::FromText { slot: 3, via: Via::ToLeanStr, text: "a text of twenty-five bytes".into() });
+            ops.push(Op::FromText { slot: 3, via: Via::TryToLeanString, text: "a text of twenty-five bytes".into() });
+            ops.push(Op::FromText { slot: 3, via: Via::ToLeanString, text: "a text of twenty-five bytes".into() });
             ops.push(Op::FromUtf8Lossy { slot: 3, hex: "6161616161616161616161616161616161ffe0a0".into() });
             ops.push(Op::FromUtf16 { slot: 3, units: vec![0x41; 20], lossy: true });
             ops.push(Op::FromUtf16 { slot: 3, units: vec![0x41; 20], lossy: false });
